@@ -32,7 +32,7 @@ func (Prop) Assumptions() []string {
 func (Prop) Plan(tier string) []lib.Workload {
 	n := 90
 	if tier == "thorough" {
-		n = 8000
+		n = 1200
 	}
 	return []lib.Workload{{Name: "pairs", Cases: n, MinNontrivial: n}}
 }
